@@ -31,6 +31,8 @@ type vBeacon struct {
 	present [vGens][vEpochs][vVals][2]bool
 	tag     [vGens][vEpochs][vVals][2]byte
 	gen     int
+	failNow bool // the beacon node fails every call of the current request (case parameter bnfail)
+	failed  int
 	calls   int
 	lastEp  eth2p0.Epoch
 }
@@ -50,6 +52,10 @@ func (b *vBeacon) wants(indices []eth2p0.ValidatorIndex, v int) bool {
 func (b *vBeacon) ProposerDuties(_ context.Context, opts *eth2api.ProposerDutiesOpts) (*eth2api.Response[[]*eth2v1.ProposerDuty], error) {
 	b.calls++
 	b.lastEp = opts.Epoch
+	if b.failNow {
+		b.failed++
+		return nil, context.Canceled
+	}
 	var out []*eth2v1.ProposerDuty
 	e := int(opts.Epoch - vE0)
 	for v := 0; v < vVals; v++ {
@@ -65,6 +71,10 @@ func (b *vBeacon) ProposerDuties(_ context.Context, opts *eth2api.ProposerDuties
 func (b *vBeacon) AttesterDuties(_ context.Context, opts *eth2api.AttesterDutiesOpts) (*eth2api.Response[[]*eth2v1.AttesterDuty], error) {
 	b.calls++
 	b.lastEp = opts.Epoch
+	if b.failNow {
+		b.failed++
+		return nil, context.Canceled
+	}
 	var out []*eth2v1.AttesterDuty
 	e := int(opts.Epoch - vE0)
 	for v := 0; v < vVals; v++ {
@@ -80,6 +90,10 @@ func (b *vBeacon) AttesterDuties(_ context.Context, opts *eth2api.AttesterDuties
 func (b *vBeacon) SyncCommitteeDuties(_ context.Context, opts *eth2api.SyncCommitteeDutiesOpts) (*eth2api.Response[[]*eth2v1.SyncCommitteeDuty], error) {
 	b.calls++
 	b.lastEp = opts.Epoch
+	if b.failNow {
+		b.failed++
+		return nil, context.Canceled
+	}
 	var out []*eth2v1.SyncCommitteeDuty
 	e := int(opts.Epoch - vE0)
 	for v := 0; v < vVals; v++ {
@@ -213,8 +227,18 @@ func VerifC20Cache() {
 			var res vRes
 			for _, ty := range types {
 				before := b.calls
+				failedBefore := b.failed
+				b.failNow = (vrt.Param("bnfail")>>i)&1 == 1
 				var err error
 				res, err = vAsk(c, ty, ep, idx)
+				b.failNow = false
+				if b.failed != failedBefore {
+					// the cache had to ask the beacon node and the beacon node failed: so does the request (a partial answer
+					// from the cache would look like "the other validators have no duty")
+					vrt.Assert("a request that needs the beacon node fails when the beacon node fails", err != nil)
+					res = vRes{}
+					continue
+				}
 				vrt.Assert("request succeeds", err == nil)
 				// oracle: the beacon node's own answer for this request
 				expected := 0
